@@ -294,6 +294,8 @@ def run_history(ctx, case):
             # the fit-time standardisation skips constrained variables
             for c in w.cplx:
                 constrained = any(c + k in t for t in w.tie_classes for k in "ri") or (c + "r") in vm.bnd_dic or (c + "i") in vm.bnd_dic
+                # a fixed modulus or phase is a constraint as well (the standardisation would have to change the fixed component)
+                constrained = constrained or ((c + "r") in vm.trainable_vars) != ((c + "i") in vm.trainable_vars)
                 if before["polar"][c] and not constrained:
                     std_targets.append(c)
             cls.add("standard_complex")
